@@ -67,7 +67,7 @@ def eviction(ctx, d1, f):
     # the guarded eviction block: `if len(C) > N:` / `if C.__len__() > N:`
     blocks = []
     for n in walk_no_nested(f.node):
-        if isinstance(n, ast.If) and isinstance(n.test, ast.Compare) and isinstance(n.test.ops[0], ast.Gt) \
+        if isinstance(n, ast.If) and isinstance(n.test, ast.Compare) and isinstance(n.test.ops[0], (ast.Gt, ast.GtE)) \
                 and ('len(' in src(n.test.left) or '__len__' in src(n.test.left)):
             blocks.append(n)
     if not blocks:
@@ -98,7 +98,7 @@ def eviction(ctx, d1, f):
                     d1.fail(cons, 'mutation-under-iterator', 'the loop deletes from %s and then advances an iterator created over it '
                             '(RuntimeError: dictionary changed size during iteration)' % C, f, n)
                     bad = True
-                if isinstance(it, ast.Name) and it.id == C or src(it) in (C, C + '.keys()', C + '.items()') and dels:
+                if (isinstance(it, ast.Name) and it.id == C or src(it) in (C, C + '.keys()', C + '.items()')) and dels:
                     d1.fail(cons, 'mutation-under-iterator', 'the loop deletes from %s while iterating over it directly' % C, f, n)
                     bad = True
             if isinstance(n, ast.While):
@@ -119,14 +119,25 @@ def eviction(ctx, d1, f):
         idx = body.index(b) if b in body else -1
         stores_before = [s for s in body[:idx] if isinstance(s, ast.Assign) and any(
             isinstance(t, ast.Subscript) and src(t.value) == C for t in s.targets)]
-        if f.name != 'trim_cache':
-            if stores_before:
-                pass
-            else:
-                d1.fail(cons, 'evict-before-store', 'the eviction does not follow the store of the new entry', f, b)
-                bad = True
+        # (evicting before or after the insertion are both fine: not a necessary condition, not checked)
+        # the eviction must not re-bind the names that form the new entry (key / value) before it is stored
+        clobber = set()
+        for x in ast.walk(b):
+            if isinstance(x, ast.Name) and isinstance(x.ctx, ast.Store):
+                clobber.add(x.id)
+        later = body[idx + 1:] if idx >= 0 else []
+        used_later = set()
+        for s_ in later:
+            if isinstance(s_, ast.Assign) and any(isinstance(t, ast.Subscript) and src(t.value) == C for t in s_.targets):
+                for x in ast.walk(s_):
+                    if isinstance(x, ast.Name) and isinstance(x.ctx, ast.Load):
+                        used_later.add(x.id)
+        hit = sorted(clobber & used_later)
+        if hit:
+            d1.fail(cons, 'eviction-clobbers-%s' % hit[0], 'the eviction re-binds %r, which is then used to store the new entry: the entry lands under the wrong key' % hit[0], f, b)
+            bad = True
         if not bad:
-            d1.ok(cons, 'eviction of %s: deletes keys only, loops (if any) over an iterable without a live iterator, after the store' % C, f, b)
+            d1.ok(cons, 'eviction of %s: deletes keys only, loops (if any) over an iterable without a live iterator, leaves the key and value of the new entry untouched' % C, f, b)
 
 
 def memo(ctx, d2):
